@@ -59,6 +59,18 @@ class Limiter:
     def advance(self, d):
         self.loop.advance(d * TICK)
 
+    # the limit is per ADDRESS: what is asked for and which certificate is presented (none, one, a fresh one per request)
+    # must not matter
+    _n = 0
+
+    def rnd_path(self):
+        type(self)._n += 1
+        return ["x", "a/b?q=%d" % self._n, "", "x"][self._n % 4]
+
+    def rnd_fp(self):
+        k = self._n % 5
+        return None if k in (0, 1) else ("sha256:" + "ab" * 32 if k == 2 else "sha256:%064x" % (self._n * 2654435761))
+
     def advance_interleaved(self, d, inject):
         """Advance by d ticks, but run the loop one iteration at a time once the target time is reached and call
         inject() between iterations: requests that arrive *while* a clean-up wake-up is in progress."""
@@ -75,7 +87,7 @@ class Limiter:
 
     def request_now(self, ip):
         """process_request driven to completion without running other loop callbacks (it never awaits)."""
-        coro = self.rl.process_request("gemini://h.ex/x", ADDR[ip], None)
+        coro = self.rl.process_request("gemini://h.ex/" + self.rnd_path(), ADDR[ip], self.rnd_fp())
         try:
             coro.send(None)
         except StopIteration as si:
@@ -96,7 +108,7 @@ class Limiter:
         """One process_request (optionally gather()-ed with `concurrent` further ones from the same address:
         returns the list of decisions in call order)."""
         async def go():
-            calls = [self.rl.process_request("gemini://h.ex/x", ADDR[ip], None) for _ in range(1 + concurrent)]
+            calls = [self.rl.process_request("gemini://h.ex/" + self.rnd_path(), ADDR[ip], self.rnd_fp()) for _ in range(1 + concurrent)]
             return await asyncio.gather(*calls)
         res = self.loop.run_coro(go())
         oks = []
